@@ -127,21 +127,21 @@ def fixed_cases(d):
     ex = lambda p, v, **k: p.new("ValueWrapper", v, allow_parametrize=False, **k)  # noqa: E731
     p = P()
     t = p.new("Table", "t1")
-    q = p.call(p.call(Q, "from_", t), "select", ex(p, "EXEMPT:select"), ex(p, 777001, alias="n"), p.new("fn.Coalesce", p.call(t, "field", "a"), ex(p, "EXEMPT:fn-arg")),
+    q = p.call(p.call(Q, "from_", t), "select", ex(p, "EXEMPT:select 100% it's \\ ? %s $1 :x"), ex(p, 777001, alias="n"), p.new("fn.Coalesce", p.call(t, "field", "a"), ex(p, "EXEMPT:fn-arg")),
                p.call(p.call(p.new("Case"), "when", p.bin("==", p.call(t, "field", "b"), ex(p, "EXEMPT:case-cond")), ex(p, "EXEMPT:case-then")), "else_", "plain-else"))
-    q = p.call(q, "where", p.bin("==", p.call(t, "field", "a"), ex(p, "EXEMPT:where")))
+    q = p.call(q, "where", p.bin("==", p.call(t, "field", "a"), ex(p, "EXEMPT:where 50%")))
     q = p.call(q, "where", p.call(p.call(t, "field", "b"), "between", ex(p, 777002), 9))
     q = p.call(q, "where", p.call(p.call(t, "field", "c"), "isin", [ex(p, "EXEMPT:in-list"), "plain-in"]))
     q = p.call(q, "having", p.bin(">", p.new("fn.Count", "*"), ex(p, 777003)))
     out.append({"k": "program", "prog": p.prog(dialect=d, fixed="exempt-select"), "tgt": q.i})
     p = P()
     t = p.new("Table", "t1")
-    up = p.call(p.call(p.call(Q, "update", t), "set", "a", ex(p, "EXEMPT:set")), "set", p.call(t, "field", "b"), "plain-set")
+    up = p.call(p.call(p.call(Q, "update", t), "set", "a", ex(p, "EXEMPT:set %d%% '")), "set", p.call(t, "field", "b"), "plain-set")
     up = p.call(up, "where", p.bin("==", p.call(t, "field", "id"), ex(p, 777004)))
     out.append({"k": "program", "prog": p.prog(dialect=d, fixed="exempt-update"), "tgt": up.i})
     p = P()
     t = p.new("Table", "t1")
-    ins = p.call(p.call(p.call(Q, "into", t), "columns", "id", "a"), "insert", ex(p, 777005), ex(p, "EXEMPT:insert"))
+    ins = p.call(p.call(p.call(Q, "into", t), "columns", "id", "a"), "insert", ex(p, 777005), ex(p, "EXEMPT:insert %(x)s"))
     ins = p.call(p.call(ins, "on_conflict", "id"), "do_update", "a", ex(p, "EXEMPT:do-update"))
     out.append({"k": "program", "prog": p.prog(dialect=d, fixed="exempt-insert"), "tgt": ins.i})
     p = P()
@@ -332,6 +332,11 @@ def check_object(o, d, mon, label):
     mon.count("placeholders_" + DIALECT_OF[d], len(values))
     for v in values:
         mon.add("value_kinds", kind_of(v))
+    enums = [v for v in values if isinstance(v, enum.Enum)]
+    if enums:
+        # Parameterizer.should_parameterize: enum members (of whatever mixin type) stay inline
+        return ("enum-parameterised:%s" % type(enums[0]).__name__, "an enum member travels in the parameter list: %r; %r" % (enums[:3], sql_p[:260]),
+                {"sql_p": sql_p, "values": [repr(v) for v in values]})
     exempt = [v for v in values if (isinstance(v, str) and v.startswith("EXEMPT:")) or (isinstance(v, int) and 777000 < v < 777100)]
     if exempt:
         return ("exempt-value-parameterised", "a value wrapped with allow_parametrize=False travels in the parameter list: %r; %r" % (
